@@ -347,6 +347,7 @@ def rule_optflow2(ctx: Ctx) -> RuleResult:
                               VIOLATED, f"value of --{dest} flows into {c}({s}), the destination of --{other}",
                               opts[dest]["node"].lineno)
     # OPTFLOW-5: hops are control-dependent only on the option itself
+    own_value_tests: List[tuple] = []
     for dest in sorted(opts):
         for f, node in fl.hops.get(dest, []):
             st_node = node
@@ -363,6 +364,8 @@ def rule_optflow2(ctx: Ctx) -> RuleResult:
                     own = dest in tt
                     if others and not own:
                         foreign.append((norm(p.test)[:50], sorted(others), "else-branch" if child in p.orelse else "then-branch"))
+                    if own and opts[dest]["type"] == "int" and not _is_none_test(p.test):
+                        own_value_tests.append((f, st_node, norm(p.test)[:50]))
                 child, p = p, m.parents.get(p)
             if foreign:
                 rr.instances += 1
@@ -371,7 +374,26 @@ def rule_optflow2(ctx: Ctx) -> RuleResult:
                       f"--{dest.replace('_', '-')} is forwarded whatever the other options are", VIOLATED,
                       f"this hop sits in the {br} of `if {t}`, which tests option(s) {o}: --{dest} is dropped for some "
                       f"combinations", st_node.lineno)
+    seen_ov = set()
+    for f, st_node, test in own_value_tests:
+        k = (f.key, id(st_node))
+        if k in seen_ov:
+            continue
+        seen_ov.add(k)
+        rr.instances += 1
+        rr.ob(f.relpath, f.qualname, norm(st_node)[:80], "an integer option is forwarded for every value, 0 included "
+              "(`--max-strings-literals 0` is documented to disable literals)", VIOLATED,
+              f"this hop is guarded by `{test}`, a truthiness / magnitude test of the option's own value: the value 0 (or "
+              f"negatives) is silently replaced by the generator's default", st_node.lineno)
     return rr
+
+
+def _is_none_test(test: ast.AST) -> bool:
+    t = test
+    while isinstance(t, ast.UnaryOp) and isinstance(t.op, ast.Not):
+        t = t.operand
+    return isinstance(t, ast.Compare) and len(t.ops) == 1 and isinstance(t.ops[0], (ast.Is, ast.IsNot)) and \
+        isinstance(t.comparators[0], ast.Constant) and t.comparators[0].value is None
 
 
 def _slot_match(exp: Tuple[str, str], got: Tuple[str, str]) -> bool:
@@ -442,6 +464,35 @@ def rule_optflow3(ctx: Ctx) -> RuleResult:
               VIOLATED if extra else DISCHARGED,
               f"{extra} accepted by the parser but unhandled (KeyError/AttributeError after loading)" if extra else
               "all handled", o["node"].lineno)
+    # glob symbols: the characters process_path treats as pattern magic are the ones the --model help documents
+    pp = ctx.prog.func(CLI, "process_path")
+    tested = set()
+    for n in walk_no_nested(pp.node):
+        if isinstance(n, ast.Lambda):
+            for c in ast.walk(n.body):
+                if isinstance(c, ast.Compare) and isinstance(c.ops[0], (ast.In, ast.NotIn)) and isinstance(c.left, ast.Constant) \
+                        and isinstance(c.left.value, str):
+                    tested |= set(c.left.value)
+                if isinstance(c, ast.Call) and norm(c.func) in ("any", "set") :
+                    for k in ast.walk(c):
+                        if isinstance(k, ast.Constant) and isinstance(k.value, str) and len(k.value) <= 4:
+                            tested |= set(k.value)
+    helptext = ""
+    mo = opts.get("model")
+    if mo is not None:
+        for k in mo["node"].keywords:
+            if k.arg == "help":
+                v = ctx.folder.try_fold(mod, k.value, cli)
+                helptext = v if isinstance(v, str) else ""
+    import re as _re
+    documented = set("".join(_re.findall(r"'([*?\[\]]+)'", helptext)))
+    if tested and documented:
+        rr.instances += 1
+        extra = sorted(tested - documented)
+        rr.ob(CLI, "process_path", f"pattern symbols tested: {sorted(tested)}", f"only the documented pattern symbols "
+              f"{sorted(documented)} make a path component a glob pattern; any other character is a literal file name",
+              VIOLATED if extra else DISCHARGED, f"{extra} also switch to pattern matching: a file whose name contains them "
+              f"is silently skipped or another file is loaded" if extra else "code and help agree", pp.node.lineno)
     # custom is split off before the mapping is indexed, in validate and set_args
     sa = ctx.prog.func(CLI, "Cli.set_args")
     rr.instances += 1
@@ -691,7 +742,9 @@ def rule_seq1(ctx: Ctx) -> RuleResult:
     rr = RuleResult("SEQ-1", "samples reach generate() in argument order, none skipped", floor=3)
     sm = ctx.prog.func(CLI, "Cli.setup_models_data")
     cfg = ctx.cfg(sm)
-    ORDER_CHANGING = {"sorted", "set", "frozenset", "reversed", "OrderedSet", "dict.fromkeys", "random.shuffle", "Counter"}
+    ORDER_CHANGING = {"sorted", "set", "frozenset", "reversed", "OrderedSet", "dict.fromkeys", "random.shuffle", "Counter",
+                      "filter", "itertools.filterfalse", "filterfalse", "itertools.islice", "islice", "itertools.compress",
+                      "itertools.dropwhile", "itertools.groupby", "unique"}
     # (a) no order-changing operation on the sample path
     for f in (sm, ctx.prog.func(CLI, "iter_json_file"), ctx.prog.func(CLI, "Cli.run")):
         for n in walk_no_nested(f.node):
@@ -700,6 +753,12 @@ def rule_seq1(ctx: Ctx) -> RuleResult:
                 rr.instances += 1
                 rr.ob(f.relpath, f.qualname, norm(n)[:60], "sample sequences are only concatenated and iterated", VIOLATED,
                       "order-changing / de-duplicating operation on the sample path", n.lineno)
+    for f in (sm, ctx.prog.func(CLI, "iter_json_file")):
+        for n in walk_no_nested(f.node):
+            if isinstance(n, (ast.ListComp, ast.GeneratorExp)) and any(g.ifs for g in n.generators):
+                rr.instances += 1
+                rr.ob(f.relpath, f.qualname, norm(n)[:60], "sample sequences are only concatenated and iterated", VIOLATED,
+                      "a filtering comprehension on the sample path drops samples (e.g. empty objects)", n.lineno)
     # (b) the accumulation is reached on every non-raising path of each loop iteration
     exts = [n for n in walk_no_nested(sm.node) if isinstance(n, ast.Call) and isinstance(n.func, ast.Attribute)
             and n.func.attr in ("extend", "append") and isinstance(n.func.value, ast.Subscript)]
@@ -752,3 +811,27 @@ def rule_seq1(ctx: Ctx) -> RuleResult:
           "for name, data in self.models_data.items(): generate(*data)" if ok else "samples are transformed before generate()",
           run.node.lineno)
     return rr
+
+
+def _optflow_subset(ctx: Ctx, rule_id: str, title: str, dests) -> RuleResult:
+    full = rule_optflow2(ctx)
+    rr = RuleResult(rule_id, title, floor=len(dests))
+    keys = [d.replace("_", "-") for d in dests] + list(dests)
+    for o in full.obligations:
+        if any(k in o.text or k in o.statement for k in keys):
+            o.rule = rule_id
+            rr.obligations.append(o)
+    rr.instances = len(rr.obligations)
+    return rr
+
+
+def rule_optflow_maxlit(ctx: Ctx) -> RuleResult:
+    """LIT-2's CLI half: --max-strings-literals reaches the generators' max_literals for every value (0 included)."""
+    return _optflow_subset(ctx, "OPTFLOW-lit", "--max-strings-literals reaches max_literals, for every value",
+                           ["max_strings_literals"])
+
+
+def rule_optflow_dictkeys(ctx: Ctx) -> RuleResult:
+    """C13's CLI half: both dict-key options reach the generator, independently of each other."""
+    return _optflow_subset(ctx, "OPTFLOW-dk", "--dict-keys-regex and --dict-keys-fields both reach the generator",
+                           ["dict_keys_regex", "dict_keys_fields"])
